@@ -87,3 +87,18 @@ Theorem C12_reset_program_is_source : forall s0 s, In s0 rinits -> rreach s0 s -
   view_of (micros s [M_DIS_STATE; M_UNREG]) = vrun false ctl_reset_device (view_of s).
 Proof. intros s0 s H0 Hr. exact (race_reset_is_source s (vinv_reachable s0 s H0 Hr)). Qed.
 Print Assumptions C12_reset_program_is_source.
+
+(* ---- the worker's decisions on a kick are REGENERATED from vring.rs / event_loop.rs (Gen/GenWk.v) and called by the
+   race system explored above: a ring that is not enabled leaves the kick pending and is not dispatched; every other
+   woken ring has its kick consumed and is dispatched ---- *)
+From VV Require Import Gen.GenWk Proofs.WkProofs.
+From Coq Require Import String.
+Theorem C12_worker_decisions_regenerated :
+  (forall e, wk_rk_d1 e = negb e)
+  /\ (forall x dev nq nr e, wk_he_d1 x dev nq nr e = x && (dev =? nq) /\ wk_he_d2 x dev nq nr e = (dev <? nr) /\ wk_he_d3 x dev nq nr e = negb e).
+Proof. split; [exact wk_rk_d1_spec|exact wk_he_spec]. Qed.
+Print Assumptions C12_worker_decisions_regenerated.
+
+Theorem C12_worker_statements_regenerated : [wk_rk_shape; wk_setters_shape; wk_he_shape] = wk_shapes_expected.
+Proof. exact wk_shapes_ok. Qed.
+Print Assumptions C12_worker_statements_regenerated.
